@@ -440,6 +440,17 @@ def analyse_teardown(tree, rmcp, f):
                           for t in (n.targets if isinstance(n, ast.Assign) else [n.target]))]
         false_stores = [n for n in stores if not (isinstance(n, ast.Assign) and isinstance(n.value, ast.Constant)
                                                   and n.value.value is True)]
+        # (fix C06-4) establish_session clears the caller's Session object - `session.activated = False` - among its
+        # first statements, before anything is sent (before its first `self.<method>(...)` call statement, the ping):
+        # no session exists at that point, the store is not part of any teardown; it is C06's (Props.C06.handshake_shape)
+        est_fn = _meth(rmcp, 'establish_session')
+        if est_fn is not None:
+            for st in _body(est_fn):
+                if isinstance(st, ast.Expr) and isinstance(st.value, ast.Call) and isinstance(st.value.func, ast.Attribute) \
+                        and _is_name(st.value.func.value, 'self'):
+                    break
+                if isinstance(st, ast.Assign) and isinstance(st.value, ast.Constant) and st.value.value is False:
+                    false_stores = [n for n in false_stores if n is not st]
         last = rest[-1] if rest else None
         f['closeDeactivatesLast'] = bool(
             last is not None and isinstance(last, ast.Assign) and len(last.targets) == 1 and is_activated(last.targets[0])
